@@ -66,6 +66,11 @@ func (pac *PACType) Unmarshal(b []byte) (err error) {
 	if err != nil {
 		return
 	}
+	// Each buffer table entry takes 16 bytes after the 8 byte header: a count that cannot fit in
+	// the data is invalid (and must not drive the allocation below).
+	if uint64(pac.CBuffers)*16+8 > uint64(len(b)) {
+		return fmt.Errorf("PAC buffer count %d exceeds the PAC data length %d", pac.CBuffers, len(b))
+	}
 	buf := make([]InfoBuffer, pac.CBuffers, pac.CBuffers)
 	for i := range buf {
 		buf[i].ULType, err = r.Uint32()
@@ -89,6 +94,10 @@ func (pac *PACType) Unmarshal(b []byte) (err error) {
 // https://msdn.microsoft.com/en-us/library/cc237954.aspx
 func (pac *PACType) ProcessPACInfoBuffers(key types.EncryptionKey, l *log.Logger) error {
 	for _, buf := range pac.Buffers {
+		// The buffer must lie inside the PAC data.
+		if buf.Offset > uint64(len(pac.Data)) || uint64(buf.CBBufferSize) > uint64(len(pac.Data))-buf.Offset {
+			return fmt.Errorf("PAC info buffer (type %d offset %d size %d) is outside the PAC data", buf.ULType, buf.Offset, buf.CBBufferSize)
+		}
 		p := make([]byte, buf.CBBufferSize, buf.CBBufferSize)
 		copy(p, pac.Data[int(buf.Offset):int(buf.Offset)+int(buf.CBBufferSize)])
 		switch buf.ULType {
